@@ -53,8 +53,19 @@ def r08_1(ctx: Ctx) -> None:
                         read_keys.add(k.value)
     ctx.floor("R08.1", len(read_keys), 6, "per-file keys filled by the FilesInfo readers")
     write_keys: Set[str] = set()
+    # only writers that FilesInfo.write actually reaches
+    reach = {"write"}
+    todo = ["write"]
+    while todo:
+        cur = fi.methods.get(todo.pop())
+        if cur is None:
+            continue
+        for c in q.calls(cur):
+            if isinstance(c.func, ast.Attribute) and isinstance(c.func.value, ast.Name) and c.func.value.id == "self" and c.func.attr in fi.methods and c.func.attr not in reach:
+                reach.add(c.func.attr)
+                todo.append(c.func.attr)
     for name, m in fi.methods.items():
-        if not (name.startswith("_write") or name == "write"):
+        if name not in reach:
             continue
         for n in walk(m.node):
             if isinstance(n, ast.Subscript) and isinstance(n.ctx, ast.Load) and isinstance(n.slice, ast.Constant) and isinstance(n.slice.value, str):
